@@ -8926,6 +8926,10 @@ def aten_scatter_src(
         index = op.Unsqueeze(index, [0])
     if len(src.shape) == 0:
         src = op.Unsqueeze(src, [0])
+    if len(self.shape) == 0:
+        # ScatterElements needs rank >= 1: a 0-d self is scattered as a one-element vector
+        self = op.Reshape(self, op.Constant(value_ints=[-1]))
+        return op.Squeeze(op.ScatterElements(self, index, src, axis=dim))
     return op.ScatterElements(self, index, src, axis=dim)
 
 
@@ -8942,6 +8946,10 @@ def aten_scatter_value(
         index = op.Unsqueeze(index, [0])
     scalar_tensor = ir.tensor([value], dtype=self.dtype)
     src = op.ConstantOfShape(op.Shape(index), value=scalar_tensor)
+    if len(self.shape) == 0:
+        # ScatterElements needs rank >= 1: a 0-d self is scattered as a one-element vector
+        self = op.Reshape(self, op.Constant(value_ints=[-1]))
+        return op.Squeeze(op.ScatterElements(self, index, src, axis=dim))
     return op.ScatterElements(self, index, src, axis=dim)
 
 
